@@ -12,6 +12,8 @@ import (
 	"time"
 )
 
+var knownFindingsPath = "/verif/KNOWN_FINDINGS.txt"
+
 func main() {
 	if len(os.Args) < 2 {
 		fmt.Fprintln(os.Stderr, "usage: harness worker | check | replay | gen")
@@ -182,7 +184,9 @@ func checkMain(args []string) {
 	evOut := fs.String("evidence-out", "", "where to write the harness part of the evidence")
 	replayDir := fs.String("replay-dir", "/verif/replays", "")
 	corpusDir := fs.String("corpus", "/verif/corpus", "")
+	knownF := fs.String("known", "/verif/KNOWN_FINDINGS.txt", "")
 	fs.Parse(args)
+	knownFindingsPath = *knownF
 	start := time.Now()
 	var frag map[string]any
 	var nViol int
